@@ -82,6 +82,15 @@ fn stub_rename2<P: AsRef<Path>, Q: AsRef<Path>>(from: P, to: Q) -> std::io::Resu
         e => Err(std::io::Error::from_raw_os_error(e as i32)),
     }
 }
+// The on-disk length of the current file is an arbitrary value (cell 10): with a buffering write
+// mode it says nothing about the records accepted so far, and the decision to rotate must not
+// depend on it. (The current code never asks; the stubs make any such question answerable.)
+fn stub_metadata_ifr<P: AsRef<Path>>(_p: P) -> std::io::Result<std::fs::Metadata> {
+    Ok(vs::zeroed_metadata())
+}
+fn stub_metadata_len_ifr(_m: &std::fs::Metadata) -> u64 {
+    vs::cell_get(10)
+}
 // outcome of the rename is concrete per instance: 0 = succeeds, 2 = ENOENT (no current file), 13 = EACCES
 fn index_for_rcurrent_case(errno: u64) {
     vs::link_all();
@@ -92,6 +101,8 @@ fn index_for_rcurrent_case(errno: u64) {
     kani::assume(highest_plus1 <= 200);
     vs::cell_set(0, highest_plus1);
     vs::cell_set(2, errno);
+    let on_disk_len: u64 = kani::any();
+    vs::cell_set(10, on_disk_len);
     let rotate: bool = kani::any();
     let config = cfg();
     let r = index_for_rcurrent(&config, if known { Some(idx) } else { None }, rotate);
@@ -129,6 +140,8 @@ macro_rules! ifr_instance {
         #[kani::stub(number_infix, stub_number_infix)]
         #[kani::stub(crate::FileSpec::as_pathbuf, stub_as_pathbuf)]
         #[kani::stub(std::fs::rename, stub_rename2)]
+        #[kani::stub(std::fs::metadata, stub_metadata_ifr)]
+        #[kani::stub(std::fs::Metadata::len, stub_metadata_len_ifr)]
         fn $name() {
             index_for_rcurrent_case($errno);
         }
@@ -269,3 +282,69 @@ highest_instance!(c06_highest_two, 4, "b");
 // @verif prop=C06 tier=quick timeout=600 bounds=one-compressed-rotated-file-b_r0000<D>.l.gz replay=highest_index_gz
 // ... and the number of a *compressed* rotated file (b_r0000<D>.l.gz): a directory that only holds compressed files must not make the numbering start again below them.
 highest_instance!(c06_highest_compressed, 3, "b");
+
+
+// ================================================================================================
+// C11 (Numbers naming): every directory state that a kill between two file-system effects of a
+// rotation can leave behind, as the start state of a new run. Effects of one rotation, in the order
+// decided by c01_rotate_numbers_size: E1 rename(rCURRENT -> r<idx>), E2 open/create(rCURRENT),
+// E3.. cleanup removals, then the write. Kill point k: 0 = before E1, 1 = between E1 and E2,
+// 2 = after E2 (current file exists again, possibly empty).
+fn restart_after_kill_case(errno_of_rename: u64) {
+    vs::link_all();
+    let idx: u32 = kani::any(); // index the killed process was about to assign
+    kani::assume(idx >= 1 && idx < 150);
+    let k: u8 = kani::any();
+    kani::assume(k < 3);
+    // directory left behind
+    let current_exists = k == 0 || k == 2;
+    let highest = if k == 0 { idx - 1 } else { idx }; // r<idx> exists once E1 happened
+    // this instance covers the kill points whose restart sees the rename succeed / report ENOENT
+    kani::assume(current_exists == (errno_of_rename == 0));
+    vs::cell_set(0, highest as u64 + 1);
+    vs::cell_set(2, errno_of_rename);
+    let append: bool = kani::any();
+    let config = cfg();
+    let r = index_for_rcurrent(&config, None, !append);
+    // the new run starts without error ...
+    assert!(r.is_ok());
+    let next = match r {
+        Ok(v) => v,
+        Err(_) => 0,
+    };
+    // ... never re-uses a number that exists on disk (no earlier record is overwritten) ...
+    if !append {
+        assert!(vs::cell_get(4) == 1 && vs::cell_get(3) == highest as u64 + 1);
+        assert!(next == if current_exists { highest + 2 } else { highest + 1 });
+    } else {
+        assert!(vs::cell_get(4) == 0 && next == highest + 1);
+    }
+    assert!(next > highest);
+    kani::cover!(errno_of_rename == 0 || k == 1, "killed between the rename and the re-open: no current file on disk");
+    kani::cover!(errno_of_rename != 0 || (k == 2 && !append), "killed after the re-open; restart without append rotates the (possibly empty) current file");
+    kani::cover!(errno_of_rename != 0 || (k == 0 && append), "killed before the rotation began; restart with append continues");
+}
+// @verif prop=C11,C06 tier=quick timeout=600 bounds=kill-points{before-rename,after-reopen},index<150,append-symbolic
+// A run killed before the rename or after the re-open of a rotation (current file present): a new logger on that directory starts without error and its next rotation number is above every number on disk.
+#[kani::proof]
+#[kani::unwind(16)]
+#[kani::stub(verif_support::reexp::catch_unwind, verif_support::stub_cu)]
+#[kani::stub(get_highest_index, stub_highest)]
+#[kani::stub(number_infix, stub_number_infix)]
+#[kani::stub(crate::FileSpec::as_pathbuf, stub_as_pathbuf)]
+#[kani::stub(std::fs::rename, stub_rename2)]
+fn c11_restart_after_kill_current_present() {
+    restart_after_kill_case(0);
+}
+// @verif prop=C11,C06 tier=quick timeout=600 bounds=kill-point-between-rename-and-reopen(no-current-file),index<150,append-symbolic
+// A run killed between the rename and the re-open (no current file on disk): the new logger starts without error (the missing current file is not an error) and continues above every number on disk.
+#[kani::proof]
+#[kani::unwind(16)]
+#[kani::stub(verif_support::reexp::catch_unwind, verif_support::stub_cu)]
+#[kani::stub(get_highest_index, stub_highest)]
+#[kani::stub(number_infix, stub_number_infix)]
+#[kani::stub(crate::FileSpec::as_pathbuf, stub_as_pathbuf)]
+#[kani::stub(std::fs::rename, stub_rename2)]
+fn c11_restart_after_kill_current_missing() {
+    restart_after_kill_case(2);
+}
